@@ -65,6 +65,10 @@ pub struct BlockSpec {
   /// coinbase outputs; the coinbase transaction's label is "c" + block id
   #[serde(default)]
   pub cb: Vec<OutSpec>,
+  /// the coinbase is byte-identical to the coinbase of this earlier block (same txid, pre-BIP34 style):
+  /// its label is "c" + that block's id and its outputs displace the older ones
+  #[serde(default, skip_serializing_if = "Option::is_none")]
+  pub dup: Option<String>,
 }
 
 #[derive(Clone, Debug, Default, Serialize, Deserialize)]
